@@ -162,7 +162,19 @@ def scenario_strategy(known_active):
     if "composite-multi-exchange" in known_active:
         exclude.add("multi-exchange")
     flag = "fixatoms-rejected-deletion" in known_active
-    return M.scenario(exclude=tuple(exclude)).map(lambda s: dict(s, exclude_fixatoms_deletion=flag))
+    def unconstrained_leaves(s):
+        # some displacement leaves switch the (documented) constraint application off: the move may then place a
+        # fixed atom anywhere - and a rejection must put it back exactly
+        k = 0
+        for e in s["entries"]:
+            for leaf in S.expr_leaves(e):
+                if leaf.get("t") == "disp":
+                    k += 1
+                    if (s.get("seed", 0) + k) % 3 == 0:
+                        leaf["apply_constraints"] = False
+        return dict(s, exclude_fixatoms_deletion=flag)
+
+    return M.scenario(exclude=tuple(exclude)).map(unconstrained_leaves)
 
 
 def _scn(case):
